@@ -4,6 +4,32 @@ import json, sys
 BASE = json.load(open('/root/.vp/BASELINE.json'))
 ALL = ["C%02d" % i for i in range(1, 21)]
 CHECKS = {
+ "C01": dict(cat="model_checking", engine="r1csmc+enginemc",
+   technique="explicit-state search of the compiled R1CS (all hint-wire values over F_47; hint adversary on BN254) + bounded-exhaustive engine runs vs the relation of the statement",
+   text="(1) InsertionRound/InsertionProof compiled over the 47-element field: every input assignment of the stated product space, with every value of every prover-chosen wire explored (dead states pruned by violated constraints); the set of reachable outputs must equal the reference. (2) the full InsertionMbuCircuit.Define (Keccak included) over the whole field F_5 (F_7 thorough). (3) BN254: every leaf-vector state over {0,1,r-1} at depth 1,2 (3 thorough) x an operation menu (start-index alphabet incl. 2^d, 2^32, r-1; commitments; genuine/stale/corrupted/reused paths; post-root variants) on the InsertionProof gadget, boundary depths 16/31/32, and the compiled BuildR1CSInsertion system solved with a deviation-bounded hint adversary and re-checked by an independent evaluator.",
+   note="Whole-field exhaustiveness is over F_5/F_7/F_47; BN254 values range over alphabets; depths other than 1,2,3,16,31,32 rely on the circuit being the d-fold iteration of one round. Trusts gnark's frontend/engine and iden3 Poseidon as reference.",
+   ref="DESIGN.md C01"),
+ "C02": dict(cat="model_checking", engine="r1csmc+enginemc",
+   technique="explicit-state search of the compiled R1CS (all hint-wire values incl. the is-zero inverse over F_47; hint adversary on BN254) + bounded-exhaustive engine runs vs the relation of the statement",
+   text="Same three explorations as C01 for DeletionRound/DeletionProof/DeletionMbuCircuit: complete F_47 input products with all prover-chosen wire values; full Define over F_5; BN254 all leaf-vector states x index-vector menu (distinct, duplicated, empty, padding, >= 2^(d+1), 2^32-1, r-1) x presented value/path/padding-content variants; boundary depths 16/30/31; compiled BuildR1CSDeletion with hint adversary.",
+   note="As C01.", ref="DESIGN.md C02"),
+ "C03": dict(cat="exploration", engine="enginemc+r1csmc",
+   technique="bounded-exhaustive engine runs over byte-length classes/perturbations + explicit search of the compiled system with every alternative decomposition v+k*r at every 256-bit hint site",
+   text="Full circuits on BN254: (A) all-padding deletion batches (roots free) and insertions into the empty tree (commitments free) over a field alphabet containing every big-endian byte length, batch sizes hitting one/two Keccak blocks, each with canonical hash (accept), hash+1, and hash-preserving single-field perturbations (reject); (B) compiled systems where bit-decomposition hint sites may answer with any boolean solution v+k*r<2^256 (complete set) or non-boolean digits, public input = Keccak of the forged packing: must be unsatisfiable.",
+   note="Adversary alphabet per hint site is complete for boolean recompositions; deviation bound 1 (2 for the double-root forgery). Keccak reference x/crypto.", ref="DESIGN.md C03"),
+ "C04": dict(cat="exploration", engine="enginemc",
+   technique="bounded-exhaustive enumeration of message lengths x domains x content classes through the gadget vs x/crypto sha3",
+   text="Every listed message length (quick: around 3 rate boundaries + production lengths; thorough: every length 0..409 and all production lengths b<=32) x {Keccak, SHA3} x content classes, each with the reference digest (must accept) and flipped digest bits (must reject); boundary lengths also compiled to R1CS and evaluated by the independent evaluator; the compiled system is checked to contain no hints.",
+   note="Contents range over 5 classes per length, not all messages.", ref="DESIGN.md C04"),
+ "C05": dict(cat="exploration", engine="enginemc+r1csmc",
+   technique="bounded-exhaustive pairs/singletons/call-sequences through the gadgets vs iden3 (BN254) and a textbook Poseidon (whole small fields); complete R1CS search over F_47",
+   text="All ordered pairs of a ~290-element BN254 alphabet (boundaries, all byte lengths, all powers of two, seeded) for Poseidon2 and all elements for Poseidon1 vs iden3; all call sequences of length <=3 on shared variables in one circuit; all pairs of F_5,7,11,13 (+17,31,61,127 thorough) vs a textbook model; compiled R1CS over F_47 for all 47^2 pairs with complete search (output set must be exactly the reference).",
+   note="'All field elements' is checked on the alphabet, not proved.", ref="DESIGN.md C05"),
+ "C06": dict(cat="exploration", engine="r1csmc+enginemc",
+   technique="complete R1CS search over F_47 (all digit/hint values) + exhaustive digit vectors over 12 small primes + every first-difference position on BN254",
+   text="ToReducedBigEndian/ReducedModRCheck/FromBinaryBigEndian: F_47 compiled systems with every value of every digit wire; 12 primes x widths 8/16(/24): all boolean vectors, non-boolean digits, all values; BN254 256-digit vectors differing from the modulus first at each position 0..255 in both directions with 4 lower-bit fillings, non-boolean digits, special values, in the engine and in the compiled system.",
+   note="Engine runs use honest hints; the adversarial part is the F_47 search and direct feeding of digit vectors.", ref="DESIGN.md C06"),
+
  "C18": dict(cat="model_checking", engine="seqmc",
    technique="explicit-state search: every update history up to a bound replayed on a fresh real tree vs cache-free reference",
    text="All update histories up to length 5/4/3 (quick) resp. 7/5/4/3 (thorough) at depth 1/2/3(/4) over all indices x {0,1,r-1}, and all histories up to length 2 (3) over a 6-index boundary alphabet at every depth 4..32, are executed on the real PoseidonTree; after each the root is compared with a from-scratch recomputation and the returned path must authenticate the old value against the old root and the new value against the new root.",
@@ -40,6 +66,8 @@ def main():
         },
         "engines": [
             {"name": "seqmc", "path": "harness/checks", "serves_properties": ["C18"], "kind_free_text": "breadth/depth-first enumeration of operation histories on fresh real objects against reference models"},
+            {"name": "r1csmc", "path": "harness/r1csmc", "serves_properties": ["C01", "C02", "C03", "C04", "C05", "C06"], "kind_free_text": "explicit-state search over a compiled R1CS: partial wire assignments, forced propagation, adversary choices for unforced/hint wires, independent constraint evaluator"},
+            {"name": "enginemc", "path": "harness/gad", "serves_properties": ["C01", "C02", "C03", "C04", "C05", "C06"], "kind_free_text": "bounded-exhaustive evaluation of repo gadgets / full Define in gnark's test engine over small whole fields and BN254 alphabets"},
         ],
         "checks": checks,
         "not_applicable": na,
